@@ -53,7 +53,8 @@ func (world) Rule(p string) string {
 			"a decode that does not return within 90 s kills the worker (TROUBLE with the input). Non-trivial = at least one mutant executed."
 	case "C07":
 		return "one run = one node encoding: harvested from a real in-memory trie built from tape keys/values (V0 or V1 layout; node.Encode of every node, proof nodes from " +
-			"proof.Generate over the database written by WriteDirty), or a hand-constructed node (leaf/branch, with/without value, inline or hashed value, partial key lengths " +
+			"proof.Generate over the database written by WriteDirty - a proof entry that is byte-equal to a V1 value longer than 32 bytes of that trie is the raw hashed value " +
+			"proofs ship beside the node that holds its hash: not a node encoding, robustness only, no round trip), or a hand-constructed node (leaf/branch, with/without value, inline or hashed value, partial key lengths " +
 			"0,1,14-16,30-32,61-65,269-271,285-287,317-319,572-574 and 65535 in the thorough tier, 0-16 children inline or hashed), or an encoding made by triedb.NewEncodedLeaf/" +
 			"NewEncodedBranch. First the round trip: node.Decode and triedb codec.Decode of the intact encoding must give the same partial key, value or value hash with the " +
 			"hashed flag, and the same children. Then mutants: " + mutationRule + "Also all 255 other header bytes in front of the rest, and crafted partial-key-length headers " +
